@@ -16,6 +16,13 @@ from .unbounded import static_binning_t, nbins
 FREQ = "physt._construction:calculate_1d_frequencies"
 
 
+def _micro_gap(bins, rtol=1e-5, atol=1e-8):
+    """some neighbouring edges differ, but by no more than np.allclose's tolerance"""
+    n = shape_of(bins)[0]
+    return Not(forall(0, n - 1, lambda k: Not(And(bins[k, 1] != bins[k + 1, 0],
+                                                  absolute(bins[k + 1, 0] - bins[k, 1]) <= atol + rtol * absolute(bins[k, 1])))))
+
+
 def _known(cond):
     """the path condition of the current path implies cond"""
     from pyvc.values import CURRENT
@@ -45,7 +52,28 @@ def _hints(v):
     return out
 
 
-@loop_invariant(FREQ, 0, havoc={"frequencies": "array", "errors2": "array", "underflow": "like:weights_array", "overflow": "like:weights_array"}, hints=_hints)
+def _exit_hints(v):
+    """after the loop: the sorted copies are the same permutation of the caller's arrays, so every weighted count over them
+    is the weighted count over the caller's data (the permutation lemma: assumed, see pyvc.induct)"""
+    if v.already_sorted is True:
+        return []
+    from pyvc.tarr import square_term
+    D, DA, WA = v.data, v.data_array, v.weights_array
+    kd = kind_of_dtype(WA.dtype)
+    N = term_of(raw(D.shape[0]), "int")
+    if DA.gather_of is None:         # data_array = data[sort_order]
+        return []
+    p = DA.gather_of[1]
+    W = v.weights.term if isinstance(getattr(v, "weights", None), TArr) else z3.K(z3.IntSort(), z3.IntVal(1))
+    out = [(induct.permutation_lemma(kd), (D.term, W, DA.term, WA.term, p, N)), ("squares", WA.term)]
+    if not z3.is_K(W):
+        out.append(("squares", W))
+    out.append((induct.permutation_lemma(kd), (D.term, square_term(W), DA.term, square_term(WA.term), p, N)))
+    return out
+
+
+@loop_invariant(FREQ, 0, havoc={"frequencies": "array", "errors2": "array", "underflow": "like:weights_array", "overflow": "like:weights_array"},
+                hints=_hints, exit_hints=_exit_hints)
 def _inv(v):
     D, W, bins, n, k = v.data_array, v.weights_array, v.bins, v.n, v.k
     f, e = v.frequencies, v.errors2
@@ -61,9 +89,18 @@ class _freq_u:
     probe = "quantifier-free"
     lemmas = [induct.slice_sum_lemma(k) for k in ("int", "float")] + [induct.below_lemma(k) for k in ("int", "float")] \
         + [induct.above_lemma(k) for k in ("int", "float")]
+    known = {
+        # F19b: is_consecutive() compares with np.allclose: bins whose edges differ by less than the tolerance are treated as
+        # consecutive, a value in the micro-gap is counted nowhere while under/overflow read as numbers
+        "for_consecutive_bins_underflow_and_overflow_are_the_weight_below_and_above_otherwise_unknown":
+            [("F19b", lambda o: _micro_gap(attr(o.binning, "_bins")))],
+    }
 
     def configs():
-        return [{"w": w, "sorted": True} for w in ("none", "float", "int")]
+        return [{"w": "none", "sorted": False}, {"w": "float", "sorted": False}, {"w": "int", "sorted": True}]
+
+    def thorough_configs():
+        return [{"w": w, "sorted": s} for w in ("none", "float", "int") for s in (True, False)]
 
     def inputs(b):
         n, N = nbins(b), b.int("N")
@@ -79,6 +116,21 @@ class _freq_u:
     @raises(ValueError, "no_bins")
     def _(a):
         return shape_of(attr(a.binning, "_bins"))[0] == 0
+
+    @ensures("for_consecutive_bins_underflow_and_overflow_are_the_weight_below_and_above_otherwise_unknown")
+    def _(a, old, result):
+        bins = attr(old.binning, "_bins")
+        n = shape_of(bins)[0]
+        W = getattr(old, "weights", None)
+        cons = forall(0, n - 1, lambda k: bins[k, 1] == bins[k + 1, 0])
+        return And(Implies(cons, lambda: And(result[2] == wside("below", old.data, W, bins[0, 0]),
+                                             result[3] == wside("above", old.data, W, bins[n - 1, 1]))),
+                   Implies(Not(cons), lambda: And(isnan(result[2]), isnan(result[3]))))
+
+    @ensures("the_inputs_are_not_modified")
+    def _(a, old, result):
+        W = getattr(old, "weights", None)
+        return And(same(a.data, old.data), True if W is None else same(a.weights, W), same(attr(a.binning, "_bins"), attr(old.binning, "_bins")))
 
     @ensures("every_bin_holds_the_weight_of_exactly_the_entries_inside_it_last_bin_closed")
     def _(a, old, result):
